@@ -272,7 +272,15 @@ class Model:
                 self.orphan_eof = True
             return
         if b.eof:
-            self.v('read-after-eof', ev, 'source read again after it reported end of input and before yywrap was consulted')
+            if self.sc.flavor == 'cxx' and not self.sc.user_input:
+                # yyFlexLexer::LexerInput on a std::istream: read() has to run into the end of the stream to
+                # return a short block, the lexer is told only the count, and every rdbuf() (buffer switch,
+                # restart) clears the stream state - a second look at an ended stream is inherent there
+                self.stat('cxx-istream-read-after-end')
+                if ret > 0:
+                    b.eof = False
+            else:
+                self.v('read-after-eof', ev, 'source read again after it reported end of input and before yywrap was consulted')
         if ret == 0:
             b.eof = True
             self.stat('eof-ind' if 'EOFIND' in flags else 'eof-end')
